@@ -18,7 +18,7 @@ RULE = ('pools of ~40 keys (str/bytes/int in and out of int64/float incl. -0.0, 
         'protocol) cells plus distinct (flavour, pair kind) cells')
 DISTINCT = ('pair_cells', 'flavour_cells')
 REQUIRED = ('pools', 'pairs_equal_identity', 'pairs_distinct_identity', 'flavour_cases', 'iteration_keys_checked',
-            'jsondisk_pools', 'pickle_alias_candidates')
+            'jsondisk_pools', 'pickle_alias_candidates', 'keys_spelled_in_another_interpreter')
 ASSUMPTIONS = ('identity rule: str by code points, bytes by content, int64 and float by exact numeric value, '
                'everything else by type and structure (DESIGN.md C02)',
                'under JSONDisk identity is the JSON text; int/float unification is asserted for Disk only',
@@ -325,6 +325,22 @@ def run_shard(tier, seed, shard, nshards, res):
             check_pool(dc, sc, res, rng, proto, 'Disk', keys, label)
             if len(res.samples) < 2:
                 res.sample({'label': label, 'keys': keys[:25]})
+        # equal keys spelled in another interpreter (other hash seed, fresh objects) address the same entries, through a
+        # plain and through a sharded cache; pools without K1/K2 material (no sets, no int/float twins)
+        from . import c13
+        rng = common.rng_for(seed, 'c02x', shard)
+        pool = ['a', '', 'a\x00b', 'é', b'a', b'', 0, -1, 2**63 - 1, -2**63, 2**63, 2**70, None, True, False,
+                ('a', 1), (1, (2, (None, b'x'))), ('a', ('b', 'c')), 1.5, 1e300]
+        pool += [k for k in random_keys(rng, 25) if not isinstance(k, (frozenset, set, float))]
+        seen_ids, keys = set(), []
+        for k in pool:
+            if ident(k) not in seen_ids and not (isinstance(k, tuple) and any(isinstance(x, (frozenset, set)) for x in k)):
+                seen_ids.add(ident(k))
+                keys.append(k)
+        before = res.counters.get('keys_cross_process', 0)
+        c13.cross_process(dc, sc, res, rng, [1, 8, 3][shard % 3], ('random', 0),
+                          'c02 across interpreters seed=%d shard=%d' % (seed, shard), keys=keys)
+        res.count('keys_spelled_in_another_interpreter', res.counters.get('keys_cross_process', 0) - before)
         # a key and the bytes equal to its serialized form sitting exactly on the page boundaries of sorted iteration
         # (first row is fetched alone, then pages of 100), in both directions
         for proto in sorted({shard % 6, (shard + 3) % 6}):
